@@ -152,6 +152,64 @@ def switch_on(f, local, defs=None, depth=0):
     return out
 
 
+def switch_on_pol(f, local):
+    """like switch_on, with polarity: [(bb, negated)] where negated counts `Not` operations on the way"""
+    out = []
+    work = [(local, False)]
+    seen = set()
+    while work:
+        l, neg = work.pop()
+        if (l, neg) in seen:
+            continue
+        seen.add((l, neg))
+        for bi, b in enumerate(f.blocks):
+            for s in b["s"]:
+                if s["r"] in ("use", "unop", "cast") and op_local(s.get("o", {})) == l and not place_proj(s["d"]):
+                    if s["r"] == "unop" and s.get("op") not in ("Not",):
+                        continue
+                    work.append((place_local(s["d"]), neg ^ (s["r"] == "unop")))
+            t = b["t"]
+            if t["k"] == "switch" and op_local(t["d"]) == l:
+                out.append((bi, neg))
+    return out
+
+
+def accepted_when(f, c, accept_bb, header=None):
+    """for a comparison dict from `comparisons`: the set of truth values of the comparison with which control can
+    still reach accept_bb (through a branch on it that dominates accept_bb)"""
+    dom = f.dominators().get(accept_bb, set())
+    avoid = {header} if header is not None else set()
+    vals = None
+    for sb, neg in switch_on_pol(f, c["dest"]):
+        if sb not in dom or sb == accept_bb:
+            continue
+        t = f.blocks[sb]["t"]
+        here = set()
+        for i, tg in enumerate(t["t"]):
+            reach = tg == accept_bb or accept_bb in f.reachable_from(tg, avoid=avoid)
+            if not reach:
+                continue
+            if i < len(t["v"]):
+                raw = bool(t["v"][i])
+            else:
+                raw = not bool(t["v"][0]) if len(t["v"]) == 1 else None
+            if raw is None:
+                continue
+            here.add(raw ^ neg)
+        vals = here if vals is None else (vals & here)
+    return vals
+
+
+def const_of(srcs):
+    """integer value of a ('const', '1_u32')-only source set, else None"""
+    cs = [x for x in srcs if x[0] == "const"]
+    if len(cs) != 1 or len(srcs) != 1:
+        return None
+    import re as _re
+    m = _re.match(r"^(-?\d+)", str(cs[0][1]))
+    return int(m.group(1)) if m else None
+
+
 def calls_to(f, suffix):
     """[(bb, term)] of calls whose generic or resolved callee ends with suffix"""
     out = []
